@@ -253,6 +253,16 @@ class _ThreadNS:
         if getattr(self_, "_sim_task", None) is not None:
             raise RuntimeError("threads can only be started once")
         name = type(self_).__name__
+        # fault: the OS refuses to create the thread ("can't start new thread") for the k-th start of a class
+        plan = sim.cfg.get("thread_start_fail") or {}
+        for prefix, k in plan.items():
+            if name.startswith(prefix):
+                seen = sim.probes.get("_thread_starts_" + prefix, 0)
+                sim.probes["_thread_starts_" + prefix] = seen + 1
+                if seen == k:
+                    sim.fault_fired("thread_start:" + prefix)
+                    sim.rec("thread-start-failed", name)
+                    raise RuntimeError("can't start new thread")
         n = sum(1 for t in sim.tasks if t.name.split("#")[0] == name)
         self_._sim_task = sim.spawn(self_.run, f"{name}#{n}", kind="lib")
         self_._sim_task.thread_obj = self_
